@@ -175,6 +175,33 @@ mod verif_c14 {
         std::mem::forget(b);
     }
 
+    // longer lists: two 12-element lists that differ in at most one (arbitrary) position, by an arbitrary double; a
+    // comparison that looks at blocks, a prefix or only some of the elements shows here
+    #[kani::proof]
+    #[kani::unwind(16)]
+    fn vec_f64_pair_laws_len12_one_difference() {
+        let mut a: Vec<f64> = Vec::with_capacity(12);
+        let mut b: Vec<f64> = Vec::with_capacity(12);
+        let i: usize = kani::any();
+        kani::assume(i < 12);
+        let x: f64 = kani::any();
+        let mut k = 0;
+        while k < 12 {
+            a.push(k as f64);
+            b.push(if k == i { x } else { k as f64 });
+            k += 1;
+        }
+        let differ = !DoubleOps::eq(&(i as f64), &x);
+        assert!(DoubleOps::eq(&a, &b) == !differ);
+        assert!((DoubleOps::cmp(&a, &b) == Ordering::Equal) == !differ);
+        assert!(DoubleOps::cmp(&a, &b) == DoubleOps::cmp(&b, &a).reverse());
+        kani::cover!(differ && i == 3);
+        kani::cover!(differ && i == 11);
+        kani::cover!(!differ);
+        std::mem::forget(a);
+        std::mem::forget(b);
+    }
+
     #[kani::proof]
     #[kani::unwind(10)]
     fn vec_f64_hash_len2() {
